@@ -21,7 +21,7 @@ type Scope struct {
 
 // asciiWords never contain multi-byte text (used where a byte/code-point distinction
 // belongs to another property).
-var asciiWords = []string{"alpha", "beta", "Gamma", "delta x", "eps", "Zeta", "eta-1", "theta", "io", "kap pa", "lam", "mu", "q", "x_y", "nan", "NaN", "inf", "Infinity", "-inf", "", "0", "7", "007", "7.0", "+7", "10", "1e1", "-3", "-3.0"}
+var asciiWords = []string{"alpha", "beta", "Gamma", "delta x", "eps", "Zeta", "eta-1", "theta", "io", "kap pa", "lam", "mu", "q", "x_y", "nan", "NaN", "inf", "Infinity", "-inf", "", "0", "7", "007", "7.0", "+7", "10", "1e1", "-3", "-3.0", "a  b", "x   y", " lead", "trail  "}
 
 // NewScope builds a random context.
 func NewScope(r *core.Rand) *Scope {
